@@ -54,9 +54,9 @@ func (fr *FuncRun) existingRef(v Val, t types.Type) {
 	}
 	switch t.Underlying().(type) {
 	case *types.Map, *types.Chan, *types.Pointer:
-		fr.emit(fmt.Sprintf("(assert (<= %s %s))", v.T, fr.allocTop))
+		fr.emit(fmt.Sprintf("(assert (<= (fa_root %s) %s))", v.T, fr.allocTop))
 	case *types.Slice:
-		fr.emit(fmt.Sprintf("(assert (<= (s-arr %s) %s))", v.T, fr.allocTop))
+		fr.emit(fmt.Sprintf("(assert (<= (fa_root (s-arr %s)) %s))", v.T, fr.allocTop))
 	}
 }
 
